@@ -283,6 +283,23 @@ HEADER_NOISE = [b'Server: x', b'X-A: 1', b'X-A: 2', b'Set-Cookie: a=b; c', b'Dat
 WS_LINES = [b' ', b'\t', b'  \t ', b'\x0b', b'\x0c ', b' \r', b' \x0b\t']
 
 
+def raw_deflate(data):
+    c = zlib.compressobj(9, zlib.DEFLATED, -15)
+    return c.compress(data) + c.flush()
+
+
+def fold_field(rng, name, colon, value, eol):
+    """A framing field, sometimes written with obs-fold (RFC 7230 3.2.4): the value, or its
+    tail, on a continuation line that starts with SP or HTAB."""
+    r = rng.random()
+    if r < 0.10:
+        return name + b':' + eol + rng.choice([b' ', b'\t', b'\t', b'\t ', b'  ']) + value
+    if r < 0.16 and b',' in value:
+        k = value.find(b',') + 1        # fold between list elements only: unfolding inserts a space
+        return name + colon + value[:k] + eol + rng.choice([b' ', b'\t', b'\t']) + value[k:]
+    return name + colon + value
+
+
 def gen_message(rng, allow_malformed=True):
     """One response message.  `wf` = within the adjudicated domain where the harness
     knows what the server meant (status code, framing, payload, message length)."""
@@ -323,21 +340,23 @@ def gen_message(rng, allow_malformed=True):
     payload = rand_body(rng)
     m.coding = None
     if rng.random() < 0.15 and not nobody:
-        m.coding = rng.choice(['gzip', 'deflate', 'gzip-bad'])
+        m.coding = rng.choice(['gzip', 'deflate', 'raw-deflate', 'gzip-bad'])
         plain = payload
         if m.coding == 'gzip':
             payload = gzip_mod.compress(plain)
         elif m.coding == 'deflate':
             payload = zlib.compress(plain)
+        elif m.coding == 'raw-deflate':
+            payload = raw_deflate(plain)
         else:
             payload = b'\x1f\x8b' + plain
-        headers.append(spell(rng, b'Content-Encoding') + b': ' + rng.choice([b'gzip', b'GZip']) if m.coding != 'deflate'
-                       else spell(rng, b'Content-Encoding') + b': deflate')
+        headers.append(spell(rng, b'Content-Encoding') + b': ' + rng.choice([b'gzip', b'GZip']) if m.coding in ('gzip', 'gzip-bad')
+                       else spell(rng, b'Content-Encoding') + b': ' + rng.choice([b'deflate', b'Deflate']))
     framing = rng.choice(['length', 'length', 'length', 'chunked', 'chunked', 'chunked', 'close', 'badlength', 'both'])
     m.conn_close = None
     r = rng.random()
     if r < 0.15:
-        headers.append(spell(rng, b'Connection') + b': ' + rng.choice([b'close', b'Close', b'CLOSE']))
+        headers.append(fold_field(rng, spell(rng, b'Connection'), b': ', rng.choice([b'close', b'Close', b'CLOSE']), eol))
         m.conn_close = True
     elif r < 0.25:
         headers.append(b'Connection: ' + rng.choice([b'keep-alive', b'Keep-Alive', b'keepalive']))
@@ -350,7 +369,7 @@ def gen_message(rng, allow_malformed=True):
         cl = b'%d' % len(payload)
         if rng.random() < 0.1:
             cl = rng.choice([b'+', b'0', b'00']) + cl
-        headers.append(spell(rng, b'Content-Length') + colon + cl)
+        headers.append(fold_field(rng, spell(rng, b'Content-Length'), colon, cl, eol))
         if rng.random() < 0.06:
             headers.append(b'Content-Length: %d' % (len(payload) + 7))  # duplicate, the first one counts
             m.wf = False
@@ -360,7 +379,7 @@ def gen_message(rng, allow_malformed=True):
                          b'identity,chunked', b' chunked ', b'x , Chunked'])
         if te in (b'gzip, chunked', b'x , Chunked', b'identity,chunked'):
             m.tags.append('te-list')
-        headers.append(spell(rng, b'Transfer-Encoding') + colon + te)
+        headers.append(fold_field(rng, spell(rng, b'Transfer-Encoding'), colon, te, eol))
         framed = chunk_encode(rng, payload)
     elif framing == 'both':
         headers.append(b'Content-Length: %d' % rng.choice([0, 3, len(payload), 10 ** 6]))
@@ -530,6 +549,8 @@ def one_shot_decode(coding, payload):
             return gzip_mod.decompress(payload)
         if coding == 'deflate':
             return zlib.decompress(payload)
+        if coding == 'raw-deflate':
+            return zlib.decompress(payload, -15)
     except Exception:
         return None
     return payload
@@ -780,3 +801,133 @@ def fmt_exchange_parts(x):
         return fmt_exchange(x).split(' | ')
     finally:
         x.consumed, x.closed = saved
+
+
+# ------------------------------------------------------------------ two web sessions over one connection pool
+class OverlapServer:
+    """Per connection: `/a` is answered at once; `/b` is answered with the first `cut` bytes of its
+    response, the rest (and the close, if any) follows when the harness calls `finish_b`."""
+
+    def __init__(self, shared):
+        self.shared = shared
+        self.buf = b''
+
+    def on_write(self, conn, data):
+        self.buf += data
+        while b'\r\n\r\n' in self.buf:
+            head, _, self.buf = self.buf.partition(b'\r\n\r\n')
+            sh = self.shared
+            path = head.split(b' ')[1].decode('latin-1')
+            sh['requests'].append((sh['net'].conns.index(conn), path, head + b'\r\n\r\n'))
+            if path == '/b':
+                sh['b_conn'] = conn
+                if sh['cut'] > 0:
+                    conn.send(sh['b_msg'][:sh['cut']])
+            else:
+                conn.send(sh['a_msg'])
+                if sh['a_eof']:
+                    conn.close()
+
+    def on_close(self, conn):
+        # what a real transport does when the local side closes: connection_lost() reaches the
+        # StreamReaderProtocol, which feeds EOF to the reader; a read pending on it returns b''
+        if not conn.server_closed and not conn.reader._eof:
+            self.shared['closed_under_reader'] = self.shared.get('closed_under_reader', 0) + 1
+            conn.reader.feed_eof()
+
+
+def real_overlap(case, recorder_params):
+    """Worker A fetches /a and stays inside its `with web_session:` block until `exit_point`;
+    worker B fetches /b through the SAME WebClient / Client / ConnectionPool (per-host limit
+    `limit`), so that it gets A's kept-alive connection.  Real WebClient, Client, Session, Stream,
+    ConnectionPool and WARCRecorder; only the transport is in memory."""
+    from wpull.protocol.http.client import Client
+    from wpull.protocol.http.web import WebClient
+    from wpull.protocol.http.request import Request
+    from wpull.network.pool import ConnectionPool
+    from wpull.warc.recorder import WARCRecorder
+
+    async def go():
+        net = fakenet.FakeNet()
+        shared = {'net': net, 'requests': [], 'a_msg': case['a_msg'], 'a_eof': case['a_eof'],
+                  'b_msg': case['b_msg'], 'cut': case['cut']}
+        net.listen('10.0.0.1', 80, lambda: OverlapServer(shared))
+        out = {}
+        with net:
+            pool = ConnectionPool(resolver=fakenet.FakeResolver(), max_host_count=case['limit'])
+            http_client = Client(connection_pool=pool)
+            web_client = WebClient(http_client)
+            recorder = WARCRecorder(recorder_params['filename'], params=recorder_params['params'])
+            recorder.listen_to_http_client(http_client)
+            a_done, b_reading, b_finished = asyncio.Event(), asyncio.Event(), asyncio.Event()
+
+            async def spin(n):
+                for _ in range(n):
+                    await asyncio.sleep(0)
+
+            async def fetch(session, sink):
+                response = await compat._ensure(session.start())
+                await compat._ensure(session.download(sink))
+                return response
+
+            async def worker_a():
+                session = web_client.session(Request('http://h/a'))
+                sink = io.BytesIO()
+                try:
+                    with session:
+                        response = await fetch(session, sink)
+                        out['a'] = ('ok', response.status_code, sink.getvalue())
+                        a_done.set()
+                        if case['exit_point'] == 'mid':
+                            await b_reading.wait()      # coprocessors, --wait pause, ... of this worker
+                        elif case['exit_point'] == 'late':
+                            await b_finished.wait()
+                except Exception as e:
+                    out['a'] = ('exc', classify_exc(e), sink.getvalue())
+                    a_done.set()
+
+            async def worker_b():
+                await a_done.wait()
+                if case['exit_point'] == 'early':
+                    await spin(6)
+                session = web_client.session(Request('http://h/b', version=case.get('b_version', 'HTTP/1.1')))
+                sink = io.BytesIO()
+                try:
+                    with session:
+                        task = asyncio.ensure_future(fetch(session, sink))
+                        await spin(12)
+                        b_reading.set()                 # in 'mid' runs A now leaves its session
+                        await spin(12)
+                        conn = shared.get('b_conn')
+                        if conn is not None and not conn.client_closed:
+                            conn.send(shared['b_msg'][shared['cut']:])
+                            if case['b_eof']:
+                                conn.close()
+                        else:
+                            out['b_rest_undeliverable'] = True
+                        done = await fakenet.settle(task, [], extra=80)
+                        if not done:
+                            task.cancel()
+                            try:
+                                await task
+                            except BaseException:
+                                pass
+                            out['b'] = ('stalled', None, sink.getvalue())
+                        else:
+                            response = task.result()
+                            out['b'] = ('ok', response.status_code, sink.getvalue())
+                except Exception as e:
+                    out['b'] = ('exc', classify_exc(e), sink.getvalue())
+                b_finished.set()
+            ta, tb = asyncio.ensure_future(worker_a()), asyncio.ensure_future(worker_b())
+            await fakenet.settle(tb, [], extra=400)
+            await fakenet.settle(ta, [], extra=100)
+            for t in (ta, tb):
+                if not t.done():
+                    t.cancel()
+            await spin(5)
+            recorder.close()
+        out['requests'] = [(c, p) for c, p, _ in shared['requests']]
+        out['closed_under_reader'] = shared.get('closed_under_reader', 0)
+        return out
+    return arun(go())
